@@ -123,7 +123,7 @@ func (g *Generator) isStruct(paramType *ast.Ident, file *ast.File) bool {
 
 func (g *Generator) handleMapType(name *ast.Ident, methodName string, httpMethod string) {
 	if httpMethod == http.MethodGet || httpMethod == http.MethodDelete {
-		g.data.QueryDictMap[methodName] = name.Name
+		g.data.QueryDictMap[methodName] = append(g.data.QueryDictMap[methodName], name.Name)
 	} else {
 		//todo: error
 	}
